@@ -288,9 +288,9 @@ def s_escape(vc):
     if not keep:
         vc.ensure("result.no_spacing_controls", within(r, [9, 10, 13]))
     vc.ensure("result.same_length", len_(r) == len_(text))
-    vc.ensure("result.identity_on_clean_text", Implies(within(text, BAD + ([] if keep else [9, 10, 13])), r == text))
+    vc.ensure("result.identity_on_clean_text", Implies(And(within(text, BAD + ([] if keep else [9, 10, 13])), no_c1(text)), r == text))
     # second reading of "control character" (Unicode Cc): C1 controls U+0080..U+009F — separate obligation
-    vc.ensure_kf("result.no_c1", no_c1(r), "KF-C49-6", Not(no_c1(text)))
+    vc.ensure("result.no_c1", no_c1(r))   # was KF-C49-6, fixed in 01d24acb6
 
 
 # =====================================================================================================================
@@ -534,7 +534,7 @@ def s_ws_message(vc):
         return
     vc.ensure("echo_iff_detail", len(echoed) == (1 if detail else 0))
     for i, t in enumerate(echoed):
-        vc.ensure_kf(f"echo[{i}].clean", clean(t), "KF-C49-2", Not(clean(f.request.path)))
+        vc.ensure(f"echo[{i}].clean", clean(t))   # was a known finding, fixed in 905d80142
 
 
 @scenario("websocket_end/format_websocket_error", functions=[D + ".websocket_end", D + ".format_websocket_error", D + ".match"], z3_timeout_ms=1500, slice_pc=True, feas_timeout_ms=300, stop_on_failure=True)
@@ -550,7 +550,7 @@ def s_ws_end(vc):
         return
     vc.ensure("one_echo", len(echoed) == 1)
     for i, t in enumerate(echoed):
-        vc.ensure_kf(f"echo[{i}].clean", clean(t), "KF-C49-1", Not(clean(ws.close_reason)))
+        vc.ensure(f"echo[{i}].clean", clean(t))   # was a known finding, fixed in 905d80142
 
 
 # =====================================================================================================================
@@ -599,7 +599,7 @@ def s_proto_error(vc):
         return
     vc.ensure("one_echo", len(echoed) == 1)
     for i, t in enumerate(echoed):
-        vc.ensure_kf(f"echo[{i}].clean", clean(t), "KF-C49-3", Not(clean(f.error.msg)))
+        vc.ensure(f"echo[{i}].clean", clean(t))   # was a known finding, fixed in 905d80142
 
 
 # =====================================================================================================================
@@ -631,8 +631,8 @@ def s_dns_response(vc):
     vc.ensure("two_echoes", len(echoed) == 2)
     if len(echoed) != 2:
         return
-    vc.ensure_kf("query_line.clean", clean(echoed[0]), "KF-C49-4", Not(clean(q.name)))
-    vc.ensure_kf("answer_line.clean", clean(echoed[1]), "KF-C49-5", Not(conj(clean(a.text) for a in answers)))
+    vc.ensure("query_line.clean", clean(echoed[0]))   # was a known finding, fixed in 905d80142
+    vc.ensure("answer_line.clean", clean(echoed[1]))   # was a known finding, fixed in 905d80142
 
 
 @scenario("dns_error", functions=[D + ".dns_error", D + "._echo_dns_query", D + "._fmt_client", D + ".match"], z3_timeout_ms=1500, slice_pc=True, feas_timeout_ms=300, stop_on_failure=True)
@@ -648,7 +648,7 @@ def s_dns_error(vc):
     vc.ensure("two_echoes", len(echoed) == 2)
     if len(echoed) != 2:
         return
-    vc.ensure_kf("query_line.clean", clean(echoed[0]), "KF-C49-4", Not(clean(q.name)))
+    vc.ensure("query_line.clean", clean(echoed[0]))   # was a known finding, fixed in 905d80142
     vc.ensure("error_line.clean", clean(echoed[1]))
 
 
